@@ -484,8 +484,14 @@ func (fr *Frame) appendOp(cc *ssa.CallCommon, args []Value, st *State, pc Term, 
 			ni := u.c.Fresh("appinner", innerS)
 			if tlLit && tl.IsInt64() && tl.Int64() <= 4 && !tIsString {
 				// old part copied (quantified), new elements stored explicitly
-				u.c.Raw(fmt.Sprintf("(assert (forall ((i Int)) (! (=> (and (<= 0 i) (< i %s)) (= (select %s i) (select %s (sidx %s i)))) :pattern ((select %s i)))))",
-					s.Len.S, ni.S, oldInner.S, s.Off.S, ni.S))
+				// two alternative triggers: a read of the new array, or a read of the old one (so that facts known
+				// about old elements - e.g. the witness of an existential invariant - carry over to the copy)
+				alt := fmt.Sprintf(" :pattern ((select %s (sidx %s i)))", oldInner.S, s.Off.S)
+				if !patternSafe(alt) {
+					alt = "" // boolean structure (ite/and/not...) is not allowed inside a pattern
+				}
+				u.c.Raw(fmt.Sprintf("(assert (forall ((i Int)) (! (=> (and (<= 0 i) (< i %s)) (= (select %s i) (select %s (sidx %s i)))) :pattern ((select %s i))%s)))",
+					s.Len.S, ni.S, oldInner.S, s.Off.S, ni.S, alt))
 				tInner := Select(comp, t.Arr)
 				for i := int64(0); i < tl.Int64(); i++ {
 					u.c.Assume(Eq(Select(ni, Add(s.Len, IntLit(i))), Select(tInner, ElemIdx(t.Off, IntLit(i)))))
@@ -588,4 +594,15 @@ func (u *Unit) allocLimit(fr *Frame, st *State) *Term {
 
 func (u *Unit) preciseContent() bool {
 	return u.spec != nil && u.spec.Opts["content"] == "precise"
+}
+
+// patternSafe reports whether a term may be used as a quantifier pattern: no boolean connectives,
+// comparisons or ite inside it.
+func patternSafe(t string) bool {
+	for _, op := range []string{"(ite ", "(and ", "(or ", "(not ", "(=> ", "(= ", "(< ", "(<= ", "(> ", "(>= ", "(distinct "} {
+		if strings.Contains(t, op) {
+			return false
+		}
+	}
+	return true
 }
